@@ -149,6 +149,34 @@ type OwnerComponent struct {
 	Owner *string `cbor:"7,keyasint,omitempty" json:"owner,omitempty"`
 }
 
+// LaxComponent is a component type of a profile in which the measurement type
+// is not part of the profile and version / description are optional - reported
+// with the CLASS sentinels themselves (as the library's own extension example
+// does), bare or wrapped, not with the field-level aliases.
+type LaxComponent struct {
+	psatoken.SwComponent
+}
+
+func (o LaxComponent) GetMeasurementType() (string, error) {
+	return "", fmt.Errorf("measurement type: %w", psatoken.ErrNotInProfile)
+}
+
+func (o LaxComponent) GetVersion() (string, error) {
+	if o.Version == nil {
+		return "", psatoken.ErrMissingOptional
+	}
+	return *o.Version, nil
+}
+
+func (o LaxComponent) GetMeasurementDesc() (string, error) {
+	if o.MeasurementDesc == nil {
+		return "", fmt.Errorf("description: %w", psatoken.ErrOptionalClaimMissing)
+	}
+	return *o.MeasurementDesc, nil
+}
+
+func (o LaxComponent) Validate() error { return psatoken.ValidateSwComponent(&o) }
+
 type ExtOwnerClaims struct {
 	psatoken.P2Claims
 }
@@ -517,6 +545,48 @@ func (p NoProfileFieldProfile) GetClaims() psatoken.IClaims {
 		psatoken.IClaims
 		Something *string `cbor:"1,keyasint" json:"something"`
 	}{IClaims: nil}
+}
+
+// DeviceProfileClaims has a field NAMED Profile that is a private-use claim of
+// its own (another CBOR key): it is not the EAT / PSA profile claim, so the type
+// has no identifiable profile field.
+type DeviceProfileClaims struct {
+	psatoken.IClaims
+	Profile *string `cbor:"-75100,keyasint" json:"device-profile"`
+}
+
+type DeviceProfileProfile struct{ Name string }
+
+func (p DeviceProfileProfile) GetName() string             { return p.Name }
+func (p DeviceProfileProfile) GetClaims() psatoken.IClaims { return &DeviceProfileClaims{} }
+
+// ShadowClaims extends profile 2 and ADDS a private-use claim in a field named
+// Profile (shadowing the embedded one): the profile claim is still eat-profile.
+type ShadowClaims struct {
+	psatoken.P2Claims
+	Profile *string `cbor:"-75100,keyasint,omitempty" json:"device-profile,omitempty"`
+}
+
+func (o *ShadowClaims) Validate() error { return psatoken.ValidateClaims(o) }
+
+func (o ShadowClaims) MarshalCBOR() ([]byte, error) { return encoding.SerializeStructToCBOR(EM, &o) }
+func (o *ShadowClaims) UnmarshalCBOR(data []byte) error {
+	return encoding.PopulateStructFromCBOR(DM, data, o)
+}
+func (o ShadowClaims) MarshalJSON() ([]byte, error) { return encoding.SerializeStructToJSON(&o) }
+func (o *ShadowClaims) UnmarshalJSON(data []byte) error {
+	return encoding.PopulateStructFromJSON(data, o)
+}
+
+type ShadowProfile struct{ Name string }
+
+func (p ShadowProfile) GetName() string { return p.Name }
+func (p ShadowProfile) GetClaims() psatoken.IClaims {
+	ep := eat.Profile{}
+	if err := ep.Set(p.Name); err != nil {
+		panic(err)
+	}
+	return &ShadowClaims{P2Claims: psatoken.P2Claims{Profile: &ep, SwComponents: &psatoken.SwComponents[*psatoken.SwComponent]{}, CanonicalProfile: p.Name}}
 }
 
 // NoJSONTagClaims has a profile field (by CBOR key) without a json tag.
